@@ -45,6 +45,9 @@ type Options struct {
 	// Scale: 0 = the usual sizes, 1 = larger programs (more definitions, deeper types, longer
 	// main bodies) for the thorough tier.
 	Scale int
+	// Untypeable: a purely linear program (no drop, split or multi-name provider) whose forwards
+	// carry explicit polarity annotations, so that it also runs with typechecking disabled.
+	Untypeable bool
 }
 
 func canDrop(m string) bool  { return m == "" || m == "rep" || m == "aff" }
@@ -600,7 +603,11 @@ func Generate(intn func(int) int, opt Options) *Program {
 	g.push()
 	p := &Program{TEnv: TyEnv{}}
 	g.prog = p
-	switch g.intn(8) {
+	mode := g.intn(8)
+	if opt.Untypeable {
+		mode = 0
+	}
+	switch mode {
 	case 0:
 		g.base = "lin"
 	case 1, 2, 3:
@@ -697,6 +704,17 @@ func Generate(intn func(int) int, opt Options) *Program {
 		}
 	}
 	p.Procs = append(p.Procs, &Proc{Names: []string{"main"}, T: mainT, Body: g.gen(tops, mainT, 4+g.intn(5)+4*opt.Scale)})
+	if opt.Untypeable {
+		for _, t := range allTerms(p) {
+			if f, ok := t.(*Fwd); ok {
+				if p.TEnv.Positive(f.T) {
+					f.Pol = "+"
+				} else {
+					f.Pol = "-"
+				}
+			}
+		}
+	}
 	// now and then an extra unconsumed root started with `exec f()`
 	if g.intn(6) == 1 {
 		t := g.unit(g.base)
@@ -745,7 +763,7 @@ func substSelf(t Term, w string) Term {
 	case *Wait:
 		return &Wait{x.X, substSelf(x.K, w)}
 	case *Fwd:
-		return &Fwd{To: w, From: x.From, T: x.T}
+		return &Fwd{To: w, From: x.From, T: x.T, Pol: x.Pol}
 	case *Split:
 		return &Split{x.X1, x.X2, x.From, x.T, substSelf(x.K, w)}
 	case *Drop:
